@@ -50,9 +50,49 @@ class SBy:
     def isalpha(self): return self._all(set(range(65, 91)) | set(range(97, 123)))
     def isspace(self): return self._all({9, 10, 11, 12, 13, 32})
     def concrete(self): return all(isinstance(e, int) for e in self.els)
+    def find(self, sub, start=0, end=None):
+        sub = SBy.of(sub) if not isinstance(sub, int) else SBy([sub])
+        n = len(sub)
+        end = len(self.els) if end is None else min(end, len(self.els))
+        if start < 0: start = max(0, len(self.els) + start)
+        for j in range(start, end - n + 1):
+            if n == 0 or bool(SBy(self.els[j:j + n]) == sub):
+                return j
+        return -1
+    def index(self, sub, start=0, end=None):
+        j = self.find(sub, start, end)
+        if j < 0: raise ValueError("subsection not found")
+        return j
+    def rfind(self, sub, start=0, end=None):
+        sub = SBy.of(sub) if not isinstance(sub, int) else SBy([sub])
+        n = len(sub)
+        end = len(self.els) if end is None else min(end, len(self.els))
+        for j in range(end - n, start - 1, -1):
+            if n == 0 or bool(SBy(self.els[j:j + n]) == sub):
+                return j
+        return -1
+    def startswith(self, p): p = SBy.of(p); return len(p) <= len(self) and bool(SBy(self.els[:len(p)]) == p)
+    def endswith(self, p): p = SBy.of(p); return len(p) <= len(self) and (len(p) == 0 or bool(SBy(self.els[-len(p):]) == p))
+    def ints(self):
+        """elements as python ints / SI proxies (for arithmetic code that indexes bytes)"""
+        return [e if isinstance(e, int) else SI(e) for e in self.els]
     def __repr__(self): return "SBy(%r)" % (self.els,)
 
+class SByI(SBy):
+    """bytes proxy whose indexing / iteration yields SI proxies (for decoders that do arithmetic on bytes)"""
+    def __getitem__(self, k):
+        if isinstance(k, slice): return SByI(self.els[k])
+        if isinstance(k, SI): k = k.__index__()
+        e = self.els[k]
+        return e if isinstance(e, int) else SI(e)
+    def __iter__(self): return iter(self.ints())
+    def __add__(self, o): return SByI(self.els + SBy.of(o).els)
+    def __radd__(self, o): return SByI(SBy.of(o).els + self.els)
+
+
 def sx_in(a, b):
+    if isinstance(b, SBy) and isinstance(a, (bytes, bytearray, SBy)):
+        return b.find(a) >= 0
     if isinstance(a, SBy):
         if isinstance(b, (bytes, bytearray)):
             n = len(a)
